@@ -254,6 +254,8 @@ def plan(prop, tier):
         # random workloads by a constant factor
         boost = int(os.environ.get("VERIF_THOROUGH_BOOST", "12"))
         for sh in P:
+            if "transcript" in sh:
+                continue
             if sh["fl"] in ("release", "debug", "ext", "extdebug") and sh["args"][0] in ("hist", "sets", "meta", "clones", "serde", "plain", "limits", "iterstates", "dropbomb", "prefix", "par"):
                 a = sh["args"]
                 if "--n" in a:
@@ -356,7 +358,9 @@ def run_shard_once(idx, sh, binary, prop, seed, logdir, attempt, skip):
     tfile = None
     if "transcript" in sh:
         tfile = os.path.join(logdir, f"transcript-{sh['transcript']}-{fl}.txt")
-        args += ["--transcript", tfile]
+        # per-line digests keep the files small; the full text of a diverging history is
+        # regenerated by compare_transcripts
+        args += ["--transcript", tfile, "--transcript-digest", "1"]
     pfile = None
     if sh["args"][0] in RESUMABLE and "transcript" not in sh:
         pfile = os.path.join(logdir, f"progress-{idx:02d}")
@@ -458,7 +462,25 @@ def first_in_repo_frame(text):
             return m.group(1)
     return "?"
 
-def compare_transcripts(results, logdir, prop):
+def rerun_history_full(r, hist_index, binaries, prop, seed, logdir):
+    """Re-run one history of a transcript shard with full-text lines; returns the lines."""
+    sh = r["sh"]
+    fl = sh["fl"]
+    args = list(sh["args"])
+    if "--n" in args:
+        i = args.index("--n")
+        args[i + 1] = str(hist_index + 1)
+    else:
+        args += ["--n", str(hist_index + 1)]
+    out = os.path.join(logdir, f"transcript-full-{sh['transcript']}-{fl}.txt")
+    args += ["--skip", str(hist_index), "--seed", str(seed), "--prop", prop, "--replays", REPLAYS, "--transcript", out]
+    try:
+        subprocess.run(shard_cmd(fl, binaries.get(fl), args), cwd=H, env=run_env(fl), stdout=subprocess.PIPE, stderr=subprocess.PIPE, text=True, timeout=600, errors="replace")
+        return open(out).read().splitlines()
+    except Exception:
+        return None
+
+def compare_transcripts(results, logdir, prop, binaries=None, seed=1):
     """C17: line-by-line comparison of the transcripts of the release and the debug build.
 
     Transcripts are appended history by history, so a process that died still leaves what it
@@ -517,7 +539,23 @@ def compare_transcripts(results, logdir, prop):
         if diff_at is not None:
             ra = a[diff_at]
             rb = b[diff_at]
-            msg = f"release and debug builds diverge ({name}, line {diff_at+1}): release `{ra[:300]}` vs debug `{rb[:300]}`"
+            # the lines are digests: regenerate the diverging history in full text
+            hs = diff_at
+            while hs > 0 and not a[hs].startswith("## history"):
+                hs -= 1
+            m = re.match(r"## history (\d+)", a[hs]) if a else None
+            fa = fb = None
+            if m and binaries is not None:
+                fa = rerun_history_full(ra_, int(m.group(1)), binaries, prop, seed, logdir)
+                fb = rerun_history_full(rb_, int(m.group(1)), binaries, prop, seed, logdir)
+            if fa and fb:
+                k = next((i for i in range(min(len(fa), len(fb))) if fa[i] != fb[i]), min(len(fa), len(fb)))
+                la = fa[k] if k < len(fa) else "<end>"
+                lb = fb[k] if k < len(fb) else "<end>"
+                msg = f"release and debug builds diverge ({name}, {a[hs][:120]}): release `{la[:300]}` vs debug `{lb[:300]}`"
+                a, b, diff_at = fa, fb, k
+            else:
+                msg = f"release and debug builds diverge ({name}, line {diff_at+1}): release `{ra[:300]}` vs debug `{rb[:300]}`"
         elif len(a) != len(b):
             # one transcript stops early
             short, long_, sr, lr, sn, ln = (a, b, ra_, rb_, "release", "debug") if len(a) < len(b) else (b, a, rb_, ra_, "debug", "release")
@@ -553,6 +591,13 @@ def compare_transcripts(results, logdir, prop):
                 f.write("--- release\n" + "\n".join(a[lo:diff_at + 3]) + "\n--- debug\n" + "\n".join(b[lo:diff_at + 3]) + "\n")
                 f.write(f"--- release stderr tail\n{(ra_['err'] or '')[-1500:]}\n--- debug stderr tail\n{(rb_['err'] or '')[-1500:]}\n")
             viols.append((msg, path))
+        # the digest transcripts are only needed for the comparison (the replay file has the
+        # full-text excerpt of a diverging history)
+        for rr in (ra_, rb_):
+            try:
+                os.remove(rr["transcript"])
+            except OSError:
+                pass
     return compared, split, hists, len(digests), viols, inconclusive
 
 def load_known():
@@ -712,7 +757,7 @@ def main():
         M["flavours"][fl]["sanitizer_reports"] = n
     # C17: compare transcripts
     if prop == "C17":
-        compared, split, hists, nd, tviol, tinc = compare_transcripts(results, logdir, prop)
+        compared, split, hists, nd, tviol, tinc = compare_transcripts(results, logdir, prop, binaries, seed)
         # crashes of transcript shards are judged by the comparison above, not one by one
         inconclusive_reasons = [x for x in inconclusive_reasons if not x.startswith(("crash:", "hang:", "sanitizer:"))] + tinc
         M["counts"]["transcript_lines_compared"] = compared
